@@ -52,6 +52,11 @@ def body(ck, F, cfg):
     PR.check_t(ck, F, pv)
     PR.completeness_identities(ck, F, pv)
     exp_iter_rule(ck, F)
+    # the witness of every `multiply` gate is computed with Prover::eval: a wrong evaluation makes honest proofs fail
+    # (C15's R15.2 rules by reference)
+    from . import C15
+
+    C15.body(ck, F, cfg, parts=("eval",))
     ck.sample({"sink": "A_I1", "value": repr(pv.sinks["A_I1"])})
     ck.sample({"sink": "ipp.H_factors", "value": __import__("rules.alg", fromlist=["show"]).show(pv.ipp["H_factors"]) if pv.ipp else None})
     # R01.2 twin flattening
